@@ -85,7 +85,7 @@ class State:
             self.v[var] = m
 
     def kill_local(self, l):
-        for k in [k for k in self.v if (k[0] in ("l", "some", "pay", "it", "f") and k[1] == l) or (k[0] == "len" and k[1][0] == l)]:
+        for k in [k for k in self.v if (k[0] in ("l", "some", "pay", "it", "f") and k[1] == l) or (k[0] in ("len", "mbstart") and k[1][0] == l)]:
             if k[0] == "f" and self.on_escape is not None:
                 self.on_escape(k, self.v[k])
             del self.v[k]
@@ -662,6 +662,7 @@ class Intervals:
         extra = {}
         alias = None
         post_len = None
+        post_start = None
 
         def arg_itv(i):
             return self.op_itv(st, args[i])
@@ -795,6 +796,16 @@ class Intervals:
                 extra[("len", (d, (".1",)))] = (lo, max(0, base[1] - mid[0]))
         elif ends("convert::Into::into", "convert::From::from", "slice::<impl [T]>::to_vec", "borrow::ToOwned::to_owned", "smallvec::SmallVec::from_slice") and len(args) == 1 and self._seq_arg(args[0]) and dty.deref().k == "adt":
             extra[("len", (d, ()))] = self.len_itv(st, args[0])
+        elif ends("util::MsgBuffer::new") and len(args) == 1:
+            a0 = arg_itv(0)
+            if a0 is not None:
+                extra[("mbstart", (d, ()))] = a0
+                extra[("len", (d, ()))] = (0, 0)
+        elif ends("util::MsgBuffer::set_start") and len(args) == 2:
+            kk = key_of(body, op_place(args[0])) if op_place(args[0]) else None
+            a1 = arg_itv(1)
+            if kk is not None and a1 is not None:
+                post_start = (kk, a1)
         elif ends("util::MsgBuffer::set_length") and len(args) == 2:
             kk = key_of(body, op_place(args[0])) if op_place(args[0]) else None
             n = arg_itv(1)
@@ -853,6 +864,9 @@ class Intervals:
                     roots = {rl} | ({dr["l"]} if dr is not None else set())
                     for kk in [k for k in st.v if k[0] == "len" and k[1][0] in roots]:
                         del st.v[kk]
+                    if not ends("util::MsgBuffer::set_length", "util::MsgBuffer::buffer", "util::MsgBuffer::set_start"):
+                        for kk in [k for k in st.v if k[0] == "mbstart" and k[1][0] in roots]:
+                            del st.v[kk]
                     for kk in [k for k, al in st.alias.items() if al[0] in ("len", "empty", "below", "below_opt") and al[1][0] in roots]:
                         del st.alias[kk]
                 if body.local_ty(rl).int_range() is not None or [k for k in st.v if k[0] == "it" and k[1] == rl]:
@@ -869,6 +883,8 @@ class Intervals:
             st.set(k, v)
         if post_len is not None:
             st.set(("len", post_len[0]), post_len[1])
+        if post_start is not None:
+            st.set(("mbstart", post_start[0]), post_start[1])
 
     def _seq_arg(self, op):
         p = op_place(op)
@@ -1468,6 +1484,14 @@ def _discharge_with(site, an):
                 ok = a[1] <= b[0] and b[1] <= base[0] and dst[1] + (b[1] - a[0]) <= base[0]
                 return ok, "src %s..%s, dest %s, len %s" % (a, b, dst, base)
             return False, "unrecognised copy_within arguments"
+        if cls == "msgbuf" and len(args) == 2:
+            kk = key_of(body, op_place(args[0])) if op_place(args[0]) else None
+            start = st.get(("mbstart", kk)) if kk is not None else None
+            n = an.op_itv(st, args[1])
+            if start is not None and n is not None:
+                ok = start[1] + n[1] <= 65535
+                return ok, "start %s + length %s <= 65535" % (start, n)
+            return False, "buffer start not known (length %s)" % (n,)
         if cls in ("unwrap", "expect") and args:
             l = op_local(args[0])
             s = st.get(("some", l)) if l is not None else None
